@@ -8,6 +8,7 @@ INVARIANT C19_OppositeDirections
 INVARIANT C19_ArrayIsMapOfScalar
 INVARIANT C19_UnitIndependent
 INVARIANT C19_TotalOnDomain
+INVARIANT C19_LayoutIndependent
 INVARIANT C19_ElementTypeIndependent
 INVARIANT C19_AnswerInCallersForm
 INVARIANT C19_MagFluxConsistent
